@@ -351,7 +351,7 @@ Qed.
 (* ------------------------------------------------------------------ non-vacuity *)
 Definition st0 (is13 srv : bool) (h : Z) (r : bool) : st :=
   {| v13 := is13; server := srv; hs := h; rsec := r; wsec := r; err := false; closed := false; ed_skip := false;
-     ed_seen := 0; ed_max := 0; limbo := false; ignored := 0; cl_early := false; sv_early := false |}.
+     ed_seen := 0; ed_max := 0; limbo := false; ignored := 0; cl_early := false; sv_early := false; ccs_last := false; nst_pending := false |}.
 Definition rec_app (p : prot) (inner : Z) : rec :=
   {| r_hdr := HdrOk; r_outer := c_SSL_RECORD_TYPE_APPLICATION_DATA; r_short_alert := false; r_prot := p; r_inner := inner;
      r_ccs_ok := true; r_alert_ok := true; r_alert_level := 0; r_alert_desc := 0; r_overflow := false; r_empty := false; r_len := 5; r_decfail := false |}.
